@@ -2,8 +2,10 @@ HOOK_COMMITS = ["cbdc291", "c5df4fc", "57485bb", "21f5b8c", "b16838a", "6999814"
 NOT_APPLICABLE = {}
 CLAIMS = {
  'C13': dict(category='proof', ref='5 Core C, 8 C13',
-   text="Lean 4 theorems over all operation histories: the code-shaped ring+index-map queue refines a FIFO list (C13_refines), "
-        "exactly-once FIFO hand-back with byte-identical requests (C13_exactly_once_fifo), release only when terminal and eagerly "
+   text="Lean 4 theorems over all operation histories: the code-shaped ring+index-map queue with its ping FIFO refines a FIFO list "
+        "plus a FIFO of identifier-less ping requests (C13_refines), "
+        "exactly-once FIFO hand-back with byte-identical requests (C13_exactly_once_fifo; for any number of outstanding pings "
+        "C13_pings_exactly_once_fifo, C13_pings_released_answered, C13_pingresp_effect), release only when terminal and eagerly "
         "(C13_released_terminal, C13_release_eager), unknown acks are no-ops; the regenerated switch tables equal the protocol's "
         "(C13_tables_are_protocol); model tied to sessions/ackqueue.go by differential runs (real code vs model vs specification)"),
  'C06': dict(category='proof', ref='5 Core B, 8 C06',
@@ -63,7 +65,7 @@ _CLIENT_TEXT = ("Sequential Lean model of the client role (Connect, publish/subs
                 "processIncoming as a client) tied to the real service.Client by differential runs against a scripted TCP peer (PINGREQ "
                 "barrier from the peer; the ack-before-registration interleaving is forced through the verif ack-window hook), and "
                 "compared event by event with a reference client written from MQTT 3.1.1 and the property text. %s")
-CLAIMS['C12'] = dict(category='exploration', ref='8 C12', text=_CLIENT_TEXT % "Theorems: under construction. Known findings E5 (ack processed before registration is lost), single ping slot, replayed on every run.",
+CLAIMS['C12'] = dict(category='exploration', ref='8 C12', text=_CLIENT_TEXT % "Theorems: under construction. Known finding E5 (ack processed before registration is lost) replayed on every run.",
                      technique="Lean 4 executable model + reference specification, differential correspondence with forced interleaving; proofs in progress")
 CLAIMS['C20'] = dict(category='exploration', ref='8 C20', text=_CLIENT_TEXT % "Theorems: under construction. Known finding E9 (callback invoked once per matching filter of one request) replayed on every run.",
                      technique="Lean 4 executable model + reference specification, differential correspondence; proofs in progress")
@@ -226,13 +228,15 @@ CLAIMS['C04'] = dict(category='proof', ref='5 Core A, 8 C04',
     note='Trusted: Lean kernel; axioms propext/Classical.choice/Quot.sound only; Go harness + line protocol + fact extractor; Go runtime semantics assumed by the model (see evidence.assumptions)')
 
 CLAIMS['C12'] = dict(category='proof', ref='8 C12', text=_CLIENT_TEXT % (
-    "Theorems (31, all histories / all reachable states): PUBREC answered by exactly PUBREL (C12_pubrec_pubrel); QoS 0 completes in the sending step "
+    "Theorems (32, all histories / all reachable states): PUBREC answered by exactly PUBREL (C12_pubrec_pubrel); QoS 0 completes in the sending step "
     "(C12_qos0_completes_at_once); per-queue conservation and exactly-once FIFO completion (C12_queue_conservation, C12_exactly_once_fifo), a terminal ack "
     "fires exactly the longest terminal prefix, never before a request's own terminal ack, eagerly (C12_completion_timing, C12_completion_no_later, "
-    "C12_terminal_only_by_own_ack, C12_release_eager); identifiers in flight pairwise distinct in every reachable state and non-zero (C12_inflight_ids_distinct, "
+    "C12_terminal_only_by_own_ack, C12_release_eager); pings, any number outstanding: every completion exactly once in call order, the n-th PINGRESP "
+    "completes the n-th Ping (C12_ping_exactly_once_fifo, C12_ping_completion_timing, C12_two_pings_both_complete); identifiers in flight pairwise distinct in every reachable state and non-zero (C12_inflight_ids_distinct, "
     "C12_identifier_nonzero_iff/_partial); refinement of the reference client event by event on admitted histories (C12_refines_spec_partial/_step) with closed "
-    "counterexamples showing every excluded class is needed (E5 early ack, ping slot, E9, B3, late PUBREC, SUBACK code, auto id). Known findings E5 and the "
-    "single ping slot are replayed on the real code on every run with the interleaving forced through the ack-window hook.") +
+    "counterexamples showing every excluded class is needed (E5 early ack, E9, B3, late PUBREC, SUBACK code, auto id); several outstanding pings are "
+    "admitted (C12_refines_spec_pings; the single ping slot was repaired, its witness is a regression case). Known finding E5 is "
+    "replayed on the real code on every run with the interleaving forced through the ack-window hook.") +
     " PARTIAL: timing ('promptly') is not modelled; the step granularity of a sending call is {write, register} as delimited by the hook.")
 CLAIMS['C20'] = dict(category='proof', ref='8 C20', text=_CLIENT_TEXT % (
     "Theorems (10): Connect succeeds iff CONNACK code 0, returns the refusal code otherwise, and changes nothing in every non-success case (C20_connect); "
